@@ -87,6 +87,8 @@ def model_state(model):
     flags = {}
     for n, m in model.named_modules():
         flags[n] = (m.training, getattr(m, "weight_qtype", None), getattr(m, "activation_qtype", None), getattr(m, "frozen", None), type(m))
+    for n, p_ in model.named_parameters():
+        flags["::param/" + n] = (type(p_.data).__name__, p_.requires_grad, p_.dtype, tuple(p_.shape))
     return sd, flags
 
 
@@ -166,12 +168,17 @@ class World:
         self.forwards_after_exc = 0
         self.kinds = []
 
-    def model(self, kind):
-        if kind not in self.models:
+    def model(self, kind, prep=0):
+        """prep: how the user set the model up for inference — 0 as built, 1 .eval(), 2 requires_grad_(False), 3 both"""
+        if (kind, prep) not in self.models:
             # models are built outside any calibration context of the history: building is not the subject
-            saved = self.stack
-            self.models[kind] = _mk(kind, {"calibrated": 1, "frozen": 2, "unfrozen": 3}[kind])
-        return self.models[kind]
+            m = _mk(kind, {"calibrated": 1, "frozen": 2, "unfrozen": 3}[kind])
+            if prep & 1:
+                m.eval()
+            if prep & 2:
+                m.requires_grad_(False)
+            self.models[(kind, prep)] = m
+        return self.models[(kind, prep)]
 
     def apply(self, step):
         """-> list of (signature, message)"""
@@ -227,13 +234,15 @@ class World:
                 f.append((f"exit/{cls}/global-state-not-restored", f"after leaving Calibration ({where}) : {snap_diff(before, now)}"))
                 force_restore(before)
         elif op == "forward":
-            m = self.model(step["model"])
+            prep = (step.get("seed", 0) // 3) % 4
+            mkey = (step["model"], prep)
+            m = self.model(step["model"], prep)
             g = torch.Generator().manual_seed(step.get("seed", 0))
             x = torch.randn(3, 6, generator=g) * [1.0, 5.0, 0.1][step.get("seed", 0) % 3]
             if self.stack:
                 with torch.no_grad():
                     cut(m, x)  # inside a context anything may be calibrated; only the global invariants are checked
-                self.models.pop(step["model"], None)  # (its scales were legitimately moved: rebuild next time)
+                self.models.pop(mkey, None)  # (its scales were legitimately moved: rebuild next time)
                 return f
             if self.exc_exits:
                 self.forwards_after_exc += 1
@@ -250,7 +259,7 @@ class World:
                 f.append((f"forward/{step['model']}/not-repeatable", "two evaluations of the same input outside any context differ"))
             if not state_equal(before, model_state(m)):
                 f.append((f"forward/{step['model']}/state-changed", "a forward outside any Calibration context changed a parameter, buffer, scale, qtype or flag"))
-                self.models.pop(step["model"], None)
+                self.models.pop(mkey, None)
                 return f
             # any input: a batch of another float dtype (accepted or refused, it must not leave a trace either)
             other = [torch.bfloat16, torch.float16, torch.float64][step.get("seed", 0) % 3]
@@ -259,7 +268,7 @@ class World:
                 y3 = cut(m, x)
             if not state_equal(before, model_state(m)):
                 f.append((f"forward/{step['model']}/state-changed-by-other-dtype-input", f"a forward on a {other} batch changed a parameter, buffer, scale, qtype or flag of the model"))
-                self.models.pop(step["model"], None)
+                self.models.pop(mkey, None)
             elif isinstance(y3, Raised) or not torch.equal(y3.dequantize() if isinstance(y3, QTensor) else y3, d1):
                 f.append((f"forward/{step['model']}/not-repeatable", "evaluating the same input again after a batch of another dtype gives another result"))
         elif op == "new_module":
